@@ -188,6 +188,10 @@ pub fn j_long_fraction(ui: usize, n: i128, digits: usize, up: bool, neg: bool, o
     let want = decimal_ns(&num, unit) * if neg { -1 } else { 1 };
     match guard(|| Duration::from_str(&text).map(alpha)) {
         Ok(Ok(g)) if g == want => out.ok(1, digits > 18, ui as u64 * 4 + up as u64 * 2 + neg as u64),
+        // a text that denotes a fraction of a nanosecond below a whole count (the truncated renderings) has no exact duration:
+        // the statement does not say whether it is truncated or rounded to the nearest nanosecond, so the count above is
+        // accepted as well (for the rounded-up renderings both readings give the same count, which is what is demanded)
+        Ok(Ok(g)) if !up && r != 0 && g == want + if neg { -1 } else { 1 } => out.ok(1, true, 64 + ui as u64),
         Ok(g) => out.viol("c11.long_fraction", format!("wrong,{name},digits{}", if digits > 38 { ">38" } else if digits > 18 { "19-38" } else { "<=18" }), args, format!("{text:?} -> {want}"), format!("{g:?}")),
         Err(p) => out.viol("c11.long_fraction", format!("panic:{}", p.class()), args, "no panic".into(), format!("{} {}", p.loc, p.msg)),
     }
